@@ -3,8 +3,10 @@ package exec
 import (
 	"fmt"
 	"go/types"
+	"os"
 	"sort"
 	"strings"
+	"sync"
 	"time"
 
 	"moqsym/smt"
@@ -20,12 +22,22 @@ type Obligation struct {
 	Model    map[string]string
 	Formula  string
 	Implicit bool
+	Handled  bool // the harness already turned this into a violation record
 }
 
 // PathEnd is raised (as a Go panic) to end the current path.
 type PathEnd struct {
-	Kind string // "inconclusive", "infeasible", "done", "steps"
-	Msg  string
+	Kind  string // "inconclusive", "infeasible", "done", "steps"
+	Msg   string
+	Stack []string
+}
+
+// UnwindFailure is a failed unwinding assertion (depth or step bound hit) with a model of the path.
+type UnwindFailure struct {
+	Msg   string
+	Model map[string]string
+	Stack []string
+	Path  []int
 }
 
 // GoPanic is a panic of the interpreted program.
@@ -42,6 +54,7 @@ type Stats struct {
 	Completed     int
 	Infeasible    int
 	Inconclusive  []string
+	Unwinding     []UnwindFailure
 	Steps         int64
 	Obligations   []Obligation
 	Funcs         map[string]int
@@ -59,6 +72,7 @@ func (s *Stats) Merge(o *Stats) {
 	s.Completed += o.Completed
 	s.Infeasible += o.Infeasible
 	s.Inconclusive = append(s.Inconclusive, o.Inconclusive...)
+	s.Unwinding = append(s.Unwinding, o.Unwinding...)
 	s.Steps += o.Steps
 	s.Obligations = append(s.Obligations, o.Obligations...)
 	if s.Funcs == nil {
@@ -127,6 +141,7 @@ type CallInfo struct {
 type Exec struct {
 	*World
 	PC        []*smt.Term
+	Domain    []*smt.Term // input-domain constraints (regexes) only needed to make models realistic
 	prefix    []int
 	decisions []int
 	pos       int
@@ -160,49 +175,111 @@ func (ex *Exec) Inconclusive(msg string) {
 
 // Explore runs body once per feasible path.
 func (w *World) Explore(body func(ex *Exec)) *Stats {
-	st := &Stats{Funcs: map[string]int{}, Stubs: map[string]int{}, Unwound: map[string]int{}}
+	return ExploreMulti(func() *World { return w }, func(*World) {}, 1, w.MaxPaths, body)
+}
+
+// ExploreMulti explores the path tree with up to n workers, each owning one World (solver).
+// Paths are identified by decision prefixes and re-executed from the start, so workers share nothing
+// but the queue of pending prefixes.
+func ExploreMulti(get func() *World, put func(*World), n int, maxPaths int, body func(ex *Exec)) *Stats {
+	total := &Stats{Funcs: map[string]int{}, Stubs: map[string]int{}, Unwound: map[string]int{}}
+	var mu sync.Mutex
+	cond := sync.NewCond(&mu)
 	pending := [][]int{{}}
-	q0, t0 := w.S.Queries, w.S.Time
-	for len(pending) > 0 {
-		if w.MaxPaths > 0 && st.Paths >= w.MaxPaths {
-			st.Inconclusive = append(st.Inconclusive, fmt.Sprintf("path budget %d exhausted with %d prefixes pending", w.MaxPaths, len(pending)))
-			break
+	active := 0
+	started := 0
+	budgetHit := false
+	var wg sync.WaitGroup
+	worker := func() {
+		defer wg.Done()
+		var w *World
+		st := &Stats{Funcs: map[string]int{}, Stubs: map[string]int{}, Unwound: map[string]int{}}
+		var q0 int
+		var t0 time.Duration
+		for {
+			mu.Lock()
+			for len(pending) == 0 && active > 0 {
+				cond.Wait()
+			}
+			if len(pending) == 0 || budgetHit {
+				mu.Unlock()
+				break
+			}
+			if maxPaths > 0 && started >= maxPaths {
+				budgetHit = true
+				total.Inconclusive = append(total.Inconclusive, fmt.Sprintf("path budget %d exhausted with %d prefixes pending", maxPaths, len(pending)))
+				cond.Broadcast()
+				mu.Unlock()
+				break
+			}
+			prefix := pending[len(pending)-1]
+			pending = pending[:len(pending)-1]
+			active++
+			started++
+			mu.Unlock()
+			w = get()
+			q0, t0 = w.S.Queries, w.S.Time
+			var local [][]int
+			runOnePath(w, st, prefix, &local, body)
+			st.Queries += w.S.Queries - q0
+			st.SolverTime += w.S.Time - t0
+			put(w)
+			w = nil
+			mu.Lock()
+			pending = append(pending, local...)
+			active--
+			cond.Broadcast()
+			mu.Unlock()
 		}
-		prefix := pending[len(pending)-1]
-		pending = pending[:len(pending)-1]
-		ex := &Exec{World: w, prefix: prefix, decisions: append([]int(nil), prefix...), pending: &pending, Stats: st, User: map[string]any{}}
-		w.C.ResetFresh()
-		st.Paths++
-		func() {
-			defer func() {
-				if r := recover(); r != nil {
-					switch e := r.(type) {
-					case *PathEnd:
-						switch e.Kind {
-						case "inconclusive", "steps":
-							st.Inconclusive = append(st.Inconclusive, e.Msg)
-						case "infeasible":
-							st.Infeasible++
-						case "done":
-							st.Completed++
-						}
-					case *GoPanic:
-						// uncaught panic of the subject that the harness did not expect
-						st.Obligations = append(st.Obligations, Obligation{Label: "no uncaught panic: " + e.Msg, Result: "violated", Path: append([]int(nil), ex.decisions[:ex.pos]...), Model: ex.ModelOf(nil), Implicit: true})
-						st.Completed++
-					default:
-						panic(r)
-					}
-				}
-			}()
-			body(ex)
-			st.Completed++
-		}()
-		st.Steps += int64(ex.steps)
+		mu.Lock()
+		total.Merge(st)
+		mu.Unlock()
 	}
-	st.Queries = w.S.Queries - q0
-	st.SolverTime = w.S.Time - t0
-	return st
+	if n < 1 {
+		n = 1
+	}
+	for i := 0; i < n; i++ {
+		wg.Add(1)
+		go worker()
+	}
+	wg.Wait()
+	return total
+}
+
+func runOnePath(w *World, st *Stats, prefix []int, pending *[][]int, body func(ex *Exec)) {
+	ex := &Exec{World: w, prefix: prefix, decisions: append([]int(nil), prefix...), pending: pending, Stats: st, User: map[string]any{}}
+	w.C.ResetFresh()
+	st.Paths++
+	if w.Trace {
+		fmt.Fprintf(os.Stderr, "[path %d] prefix=%v queries=%d solver=%.1fs\n", st.Paths, prefix, w.S.Queries, w.S.Time.Seconds())
+	}
+	defer func() { st.Steps += int64(ex.steps) }()
+	defer func() {
+		if r := recover(); r != nil {
+			switch e := r.(type) {
+			case *PathEnd:
+				switch e.Kind {
+				case "inconclusive":
+					st.Inconclusive = append(st.Inconclusive, e.Msg)
+				case "steps":
+					m := ex.ModelOf(nil)
+					st.Unwinding = append(st.Unwinding, UnwindFailure{Msg: e.Msg, Model: m, Stack: e.Stack, Path: append([]int(nil), ex.decisions[:ex.pos]...)})
+				case "infeasible":
+					st.Infeasible++
+				case "done":
+					st.Completed++
+				}
+			case *GoPanic:
+				// uncaught panic of the subject that the harness did not expect
+				st.Obligations = append(st.Obligations, Obligation{Label: "no uncaught panic: " + e.Msg, Result: "violated", Path: append([]int(nil), ex.decisions[:ex.pos]...), Model: ex.ModelOf(nil), Implicit: true})
+				st.Completed++
+			default:
+				panic(r)
+			}
+		}
+	}()
+	body(ex)
+	st.Completed++
 }
 
 // Assume adds a constraint; ends the path if it becomes infeasible.
@@ -221,6 +298,11 @@ func (ex *Exec) Assume(c *smt.Term) {
 		}
 	}
 }
+
+// AssumeDomain records an input-domain constraint that is too expensive for every feasibility
+// query (regular-expression membership). Exploration over-approximates the domain without it;
+// obligations that come back sat are re-decided with it, and models always satisfy it.
+func (ex *Exec) AssumeDomain(c *smt.Term) { ex.Domain = append(ex.Domain, c) }
 
 // AssumeNoCheck adds a constraint without a feasibility query (for input-domain constraints).
 func (ex *Exec) AssumeNoCheck(c *smt.Term) {
@@ -321,6 +403,10 @@ func (ex *Exec) oblige(cond *smt.Term, label string, implicit bool) bool {
 	neg := ex.C.Not(cond)
 	fs := append(append([]*smt.Term(nil), ex.PC...), neg)
 	r, _ := ex.S.Check(fs, nil)
+	if r != smt.Unsat && len(ex.Domain) > 0 {
+		// a counterexample only counts inside the declared input domain
+		r, _ = ex.S.Check(append(fs, ex.Domain...), nil)
+	}
 	ob := Obligation{Label: label, Path: append([]int(nil), ex.decisions[:ex.pos]...), Implicit: implicit}
 	if len(cond.String()) < 400 {
 		ob.Formula = cond.String()
@@ -378,6 +464,7 @@ func (ex *Exec) Pass(label string) {
 // ModelOf asks the solver for a model of PC ∧ extra and returns the values of all free variables.
 func (ex *Exec) ModelOf(extra *smt.Term) map[string]string {
 	fs := append([]*smt.Term(nil), ex.PC...)
+	fs = append(fs, ex.Domain...)
 	if extra != nil {
 		fs = append(fs, extra)
 	}
